@@ -46,6 +46,7 @@ fn arg_after<'a>(args: &'a [String], flag: &str) -> Option<&'a str> {
 
 fn dispatch_run(prop: &str, tier: Tier, shard: Shard, rep: &mut Report) {
     match prop {
+        "C03" => props::c03::run(tier, shard, rep),
         "C07" => props::c07::run(tier, shard, rep),
         "C08" => props::c08::run(tier, shard, rep),
         "C12" => props::c12::run(tier, shard, rep),
@@ -53,6 +54,7 @@ fn dispatch_run(prop: &str, tier: Tier, shard: Shard, rep: &mut Report) {
         "C14" => props::c14::run(tier, shard, rep),
         "C15" => props::c15::run(tier, shard, rep),
         "C19" => props::c19::run(tier, shard, rep),
+        "C20" => props::c20::run(tier, shard, rep),
         "C16" => props::c16::run(tier, shard, rep),
         "C17" => props::c17::run(tier, shard, rep),
         _ => {
@@ -64,6 +66,7 @@ fn dispatch_run(prop: &str, tier: Tier, shard: Shard, rep: &mut Report) {
 
 fn dispatch_replay(prop: &str, case: &serde_json::Value, rep: &mut Report) {
     match prop {
+        "C03" => props::c03::replay(case, rep),
         "C07" => props::c07::replay(case, rep),
         "C08" => props::c08::replay(case, rep),
         "C12" => props::c12::replay(case, rep),
@@ -71,6 +74,7 @@ fn dispatch_replay(prop: &str, case: &serde_json::Value, rep: &mut Report) {
         "C14" => props::c14::replay(case, rep),
         "C15" => props::c15::replay(case, rep),
         "C19" => props::c19::replay(case, rep),
+        "C20" => props::c20::replay(case, rep),
         "C16" => props::c16::replay(case, rep),
         "C17" => props::c17::replay(case, rep),
         _ => {
